@@ -38,6 +38,8 @@ ResultOK(e) ==
     /\ (~e.raised => (e.comp = CompSeq(total) /\ e.q = ChargeOf))
     \* C13: every un-presented rendering that was recorded shows exactly the spec's tokens
     /\ (~e.raised => \A i \in 1..Len(e.shown) : e.shown[i] = Render)
+    \* C14: a recorded mass (round(mass * 10^9) as limbs; <<>> = not recorded) is the exact one
+    /\ (~e.raised => (e.mass9 = <<>> \/ MassClose(e.mass9, total, ChargeOf)))
 
 TStep ==
     /\ verdict = "none" /\ pos <= Len(Traces[tid])
@@ -62,7 +64,8 @@ Clause ==
       ELSE IF ~e.raised /\ fault # "none" THEN "missing-raise"
       ELSE IF e.comp # CompSeq(total) THEN "comp"
       ELSE IF e.q # ChargeOf THEN "charge"
-      ELSE "render"
+      ELSE IF \E i \in 1..Len(e.shown) : e.shown[i] # Render THEN "render"
+      ELSE "mass"
 
 E_All == 1..118
 Verdict == verdict # "none" =>
